@@ -20,8 +20,8 @@ EXTENDS Integers, Sequences, FiniteSets, TLC, Json
 
 CONSTANTS MaxTok,     \* tokens per chunk
           MaxStack,   \* bound on pending grammar symbols
-          DevParen    \* TRUE: as-built language (known finding Dev_ParenVarAssignable): a parenthesised expression is
-                      \* accepted as the target of an assignment
+          DevParen    \* TRUE: as-built language (known finding Dev_ParenVarAssignable): an expression that is not an
+                      \* l-value (a parenthesised expression, a call) is accepted as the target of an assignment
 
 NT == {"Block", "Stats", "Ret", "RetExps", "Semi", "Stat", "Elifs", "ForRest", "ForStep", "NameList2", "FuncName", "FnRest",
        "FuncBody", "ParList", "ParRest", "AttNames", "Attrib", "AttRest", "LocalInit", "ExpList", "ExpRest", "ExprStat",
@@ -60,12 +60,14 @@ P(nt) ==
     [] nt = "ExprStat"  -> {<<"name", "AfterIdx">>, <<"(", "Exp", ")", "CallSuf", "AfterCall">>, <<"(", "Exp", ")", "IdxSuf", "AfterIdx">>}
                            \cup (IF DevParen THEN {<<"(", "Exp", ")", "AssignTail">>} ELSE {})
     [] nt = "AfterCall" -> {<<>>, <<"CallSuf", "AfterCall">>, <<"IdxSuf", "AfterIdx">>}
+                           \cup (IF DevParen THEN {<<"AssignTail">>} ELSE {})
     [] nt = "AfterIdx"  -> {<<"CallSuf", "AfterCall">>, <<"IdxSuf", "AfterIdx">>, <<"AssignTail">>}
     [] nt = "AssignTail"-> {<<"=", "ExpList">>, <<",", "LValue", "AssignTail">>}
     [] nt = "LValue"    -> {<<"name", "Lvs">>, <<"(", "Exp", ")", "Lvs1">>}
                            \cup (IF DevParen THEN {<<"(", "Exp", ")">>} ELSE {})
     [] nt = "Lvs"       -> {<<>>, <<"IdxSuf", "Lvs">>, <<"CallSuf", "Lvs1">>}
     [] nt = "Lvs1"      -> {<<"IdxSuf", "Lvs">>, <<"CallSuf", "Lvs1">>}
+                           \cup (IF DevParen THEN {<<>>} ELSE {})
     [] nt = "CallSuf"   -> {<<"Args">>, <<":", "name", "Args">>}
     [] nt = "Args"      -> {<<"(", "RetExps", ")">>, <<"TableCons">>, <<"string">>}
     [] nt = "IdxSuf"    -> {<<".", "name">>, <<"[", "Exp", "]">>}
